@@ -46,6 +46,13 @@ def one_workload(ctx, idx, memkb, scratch, depth, torn, nest_every):
         env["VERIF_CRASH_MODE"] = "wide"
         memkb = 64
         depth = 0   # (recovery of this workload writes ~60 pages; crash points inside it are C20's business, on the other workloads)
+    if ctx.prop in ("C01", "C02", "C08") and idx % 12 == 9:
+        # one transaction whose records fill more than one log buffer (528 KB) without a flush in between, in a pool that
+        # never evicts, on a table without indexes: the append path behind a full buffer, and a commit flush of ~100 KB
+        env["VERIF_CRASH_MODE"] = "big"
+        env.pop("VERIF_CRASH_STEPS", None)
+        memkb = 4096
+        depth = 0
     rc, out = vlib.run([vlib.VDRIVE, "crash", "run", wdir, tr, ops, str(memkb)], cwd=ctx.work, env=env, timeout=300)
     if rc != 0:
         raise Inconclusive("crash run failed rc=%d\n%s" % (rc, out[-2000:]))
